@@ -112,6 +112,7 @@ type Exec struct {
 	Switches  int
 	holes     []*smt.Term
 	snaps     []*snapshot
+	memo      map[string]Value
 	ModPath   string
 	TapeIn    []TapeEntry
 	tapePos   int
